@@ -48,8 +48,14 @@ Hypothesis `lists(integers())` strategy draws and shrinks well), `SparseChooser(
 `enumerate_deviations(probe, bound)` walks all schedules that differ from the default one in at most
 `bound` decisions (a deviation at a line switch point is a pre-emption).
 
-Fake file objects for the virtual select: anything with `v_readable()` (and optionally `v_writable()`).
-`ds.make_pinger()` returns a pinger whose `pongAll()` on an empty pinger blocks like the real pipe.
+Fake file objects for the virtual select: anything with `v_readable()` (and optionally `v_writable()`),
+or an int / an object with `fileno()` naming a virtual pipe end created by `ds.os.pipe()`.
+`ds.make_pinger()` returns a fake pinger whose `pongAll()` on an empty pinger blocks like the real pipe.
+`ds.os` stands in for the `os` attribute of a module (e.g. pox.lib.util) so that its REAL pipe code runs
+over virtual pipes: `pipe()` returns two virtual fds (>= 1000000, never real ones), `write(fd, b)` appends
+(blocking while the 64 KiB pipe buffer is full), `read(fd, n)` returns up to n bytes and blocks -- a blocking
+primitive without deadline, site "os.read(fd=..)" -- while the pipe is empty and its write end is open,
+`close(fd)`; everything else is delegated to the real `os`.  `ds.blocked()` lists the blocked threads.
 
 Limits: switch points exist only at line boundaries of the traced functions and at shimmed primitives;
 everything else (C code, untraced Python) is atomic.  Objects of the real `queue`/`threading` modules that
@@ -63,6 +69,7 @@ import threading as _rt
 import _thread
 import time as _real_time
 import select as _real_select
+import os as _real_os
 
 from ..runner import HarnessError
 
@@ -260,6 +267,8 @@ class DetSched(object):
     self.Thread = self.threading.Thread
     self.time = _TimeShim(self)
     self.select = _SelectShim(self)
+    self.os = _OsShim(self)
+    self._pipes = {}          # virtual fd -> (_VPipe, "r" | "w")
 
   # ---- public helpers ------------------------------------------------------------------------
   def make_pinger(self):
@@ -294,6 +303,10 @@ class DetSched(object):
     finally:
       me.idle_wait = False
       me.woken_idle = False
+
+  def blocked(self):
+    """[(thread name, blocking site, virtual deadline or None)] of the threads blocked right now."""
+    return [(r.name, r.site, r.deadline) for r in self._recs if r.state == "blocked"]
 
   def me_name(self):
     r = self._by_ident.get(_rt.get_ident())
@@ -641,17 +654,27 @@ class _SelectShim(object):
   def __init__(self, ds):
     self._ds = ds
 
-  @staticmethod
-  def _r(o):
-    f = getattr(o, "v_readable", None)
-    if f is None:
-      raise HarnessError("virtual select: %r is not a fake file object (no v_readable)" % (o,))
-    return f()
+  def _vpipe(self, o):
+    fd = o if isinstance(o, int) else getattr(o, "fileno", lambda: None)()
+    return self._ds._pipes.get(fd) if isinstance(fd, int) else None
 
-  @staticmethod
-  def _w(o):
+  def _r(self, o):
+    f = getattr(o, "v_readable", None)
+    if f is not None:
+      return f()
+    vp = self._vpipe(o)
+    if vp is None:
+      raise HarnessError("virtual select: %r is neither a fake file object (v_readable) nor a virtual pipe end" % (o,))
+    return vp[1] == "r" and vp[0].readable()
+
+  def _w(self, o):
     f = getattr(o, "v_writable", None)
-    return True if f is None else f()
+    if f is not None:
+      return f()
+    vp = self._vpipe(o)
+    if vp is not None:
+      return vp[1] == "w" and vp[0].writable()
+    return True
 
   def select(self, rl, wl, xl, timeout=None):
     rl, wl = list(rl), list(wl)
@@ -663,6 +686,87 @@ class _SelectShim(object):
 
   def __getattr__(self, n):
     return getattr(_real_select, n)
+
+
+_next_vfd = [1000000]
+
+
+class _VPipe(object):
+  CAPACITY = 65536
+
+  def __init__(self):
+    self.buf = bytearray()
+    self.r_open = True
+    self.w_open = True
+    self.written = 0
+    self.empty_reads = 0
+
+  def readable(self):
+    return bool(self.buf) or not self.w_open
+
+  def writable(self):
+    return len(self.buf) < self.CAPACITY or not self.r_open
+
+
+class _OsShim(object):
+  """Stands in for the `os` module attribute of a module: pipes are virtual, the rest is the real os."""
+  name = "posix"
+
+  def __init__(self, ds):
+    self._ds = ds
+
+  def pipe(self):
+    p = _VPipe()
+    r, w = _next_vfd[0], _next_vfd[0] + 1
+    _next_vfd[0] += 2
+    self._ds._pipes[r] = (p, "r")
+    self._ds._pipes[w] = (p, "w")
+    return r, w
+
+  def _end(self, fd, kind):
+    e = self._ds._pipes.get(fd)
+    if e is None or e[1] != kind or not (e[0].r_open if kind == "r" else e[0].w_open):
+      raise OSError(9, "Bad file descriptor (virtual fd %r)" % (fd,))
+    return e[0]
+
+  def read(self, fd, n):
+    if fd not in self._ds._pipes and fd < 1000000:
+      return _real_os.read(fd, n)
+    p = self._end(fd, "r")
+    if not p.readable():
+      p.empty_reads += 1
+      self._ds.block(p.readable, None, "os.read(fd=%d) on an empty pipe" % fd)
+    d = bytes(p.buf[:n])
+    del p.buf[:n]
+    return d
+
+  def write(self, fd, data):
+    if fd not in self._ds._pipes and fd < 1000000:
+      return _real_os.write(fd, data)
+    p = self._end(fd, "w")
+    if not p.r_open:
+      raise BrokenPipeError(32, "Broken pipe (virtual fd %r)" % (fd,))
+    if not p.writable():
+      self._ds.block(p.writable, None, "os.write(fd=%d) on a full pipe" % fd)
+    k = min(len(data), p.CAPACITY - len(p.buf)) if p.r_open else len(data)
+    p.buf += bytes(data[:k])
+    p.written += k
+    return k
+
+  def close(self, fd):
+    e = self._ds._pipes.get(fd)
+    if e is None:
+      if fd >= 1000000:
+        raise OSError(9, "Bad file descriptor (virtual fd %r)" % (fd,))
+      return _real_os.close(fd)
+    if e[1] == "r":
+      e[0].r_open = False
+    else:
+      e[0].w_open = False
+    del self._ds._pipes[fd]
+
+  def __getattr__(self, n):
+    return getattr(_real_os, n)
 
 
 class _Lock(object):
